@@ -408,16 +408,16 @@ static void seq_body(Run &r, Stats &st, const SeqJob &j, Ctx &x)
 }
 
 // ------------------------------------------------------------------ job: long runs around the per-part limit
-// job "long|r=<range>|fill=<letter>|k=<count>|m=<max prefix/suffix length>"
-struct LongJob { int rng, fill, k, m; };
-static LongJob parse_long(const std::string &job) { LongJob j; sscanf(job.c_str(), "long|r=%d|fill=%d|k=%d|m=%d", &j.rng, &j.fill, &j.k, &j.m); return j; }
+// job "long|r=<range>|fill=<letter>|k=<count>|m=<max prefix length>|s=<max suffix length>"
+struct LongJob { int rng, fill, k, m, s; };
+static LongJob parse_long(const std::string &job) { LongJob j; sscanf(job.c_str(), "long|r=%d|fill=%d|k=%d|m=%d|s=%d", &j.rng, &j.fill, &j.k, &j.m, &j.s); return j; }
 static void long_body(Run &r, Stats &st, const LongJob &j, Ctx &x)
 {
 	const Rng &g = RNG[j.rng];
 	int A = g.n6;
 	int pl = (int) x.choose(j.m + 1), pre[2] = {0, 0}, suf[2] = {0, 0};
 	for (int i = 0; i < pl; ++i) pre[i] = (int) x.choose(A);
-	int sl = (int) x.choose(j.m + 1);
+	int sl = (int) x.choose(j.s + 1);
 	for (int i = 0; i < sl; ++i) suf[i] = (int) x.choose(A);
 	size_t n = (size_t) pl + j.k + sl;
 	double *v = (double *) malloc(n * sizeof(double));
@@ -552,7 +552,7 @@ void mc_jobs(Tier t, std::vector<std::string> &jobs)
 	bool q = t == Quick;
 	// big jobs first
 	for (int rng = 0; rng < 2; ++rng) seq_jobs(jobs, rng, 6, q ? 7 : 9);
-	for (int rng = 0; rng < 2; ++rng) seq_jobs(jobs, rng, 8, q ? 6 : 8);
+	for (int rng = 0; rng < 2; ++rng) seq_jobs(jobs, rng, 8, q ? 6 : 7);
 	seq_jobs(jobs, 2, 6, q ? 9 : 12);     // 3 letters
 	seq_jobs(jobs, 2, 8, q ? 6 : 8);      // 5 letters
 	seq_jobs(jobs, 3, 6, q ? 9 : 12);     // NULL range, 2 letters
@@ -563,7 +563,8 @@ void mc_jobs(Tier t, std::vector<std::string> &jobs)
 		for (int f = 0; f < 2; ++f) {
 			if (f && (g.null)) continue;
 			if (f && fills[0] == fills[1]) continue;
-			for (int k = 65531; k <= 65537; ++k) jobs.push_back(fmt("long|r=%d|fill=%d|k=%d|m=%d", rng, fills[f], k, q ? 1 : 2));
+			// quick: prefixes/suffixes of one letter, two-letter suffixes for the visible fill of the first range; thorough: all of length <= 2
+			for (int k = 65531; k <= 65537; ++k) jobs.push_back(fmt("long|r=%d|fill=%d|k=%d|m=%d|s=%d", rng, fills[f], k, q ? 1 : 2, q && (rng || f) ? 1 : 2));
 		}
 	}
 	for (int s = 0; s < JOIN_SLICES; ++s) jobs.push_back(fmt("joinpairs|%d", s));
